@@ -47,14 +47,24 @@ func New(opts *redis.Options) kvs.Storage {
 func (c *client) Create(ctx context.Context, record kvs.Record) (string, error) {
 	record.Version = ulidutils.NewID()
 	buf := rec2db(&record)
-	ok, err := c.rdb.SetNX(ctx, rKey(record.Key), buf, expiration(record.ExpiresAt, time.Now())).Result()
-	if err != nil {
-		return "", checkErr(err)
+	for {
+		ok, err := c.rdb.SetNX(ctx, rKey(record.Key), buf, expiration(record.ExpiresAt, time.Now())).Result()
+		if err != nil {
+			return "", checkErr(err)
+		}
+		if ok {
+			return record.Version, nil
+		}
+		// report the version of the existing record, as the contract requires
+		r, err := c.Get(ctx, record.Key)
+		if err == nil {
+			return r.Version, errors.ErrExist
+		}
+		if !errors.Is(err, errors.ErrNotExist) {
+			return "", err
+		}
+		// the record has gone in between, try again
 	}
-	if !ok {
-		return "", errors.ErrExist
-	}
-	return record.Version, nil
 }
 
 func (c *client) Get(ctx context.Context, key string) (kvs.Record, error) {
